@@ -269,8 +269,41 @@ func c13Memfd(c *vcore.Ctx) *vcore.Violation {
 	c.Logf("memfd shape=%s size=%d chunks=%v failAt=%d", shape, len(data), fr.chunks, fr.failAt)
 	c.Event(fmt.Sprintf("memfd:%s:%d:%v", shape, len(data), fr.failAt >= 0))
 	c.MarkNonTrivial()
+	// the supplier may be any io.Reader; real callers hand in files, buffers and readers in the middle of a stream
+	var rd io.Reader = fr
+	switch src.Pick("reader_kind", "faulty", "faulty", "osfile_at_offset", "bytes_reader_at_offset", "limited") {
+	case "osfile_at_offset":
+		if fr.failAt < 0 {
+			// a file whose header the caller has already consumed: the supplied bytes are the rest
+			hdr := 1 + src.Int(5000, "header")
+			tf, err := os.CreateTemp(c.Dir, "c13src")
+			if err != nil {
+				vcore.Harnessf("tempfile: %v", err)
+			}
+			defer tf.Close()
+			os.Remove(tf.Name())
+			tf.Write(bytes.Repeat([]byte{0xEE}, hdr))
+			tf.Write(data)
+			tf.Seek(int64(hdr), io.SeekStart)
+			rd = tf
+			c.Event("reader:osfile_at_offset")
+		}
+	case "bytes_reader_at_offset":
+		if fr.failAt < 0 {
+			hdr := 1 + src.Int(5000, "header")
+			br := bytes.NewReader(append(bytes.Repeat([]byte{0xEE}, hdr), data...))
+			br.Seek(int64(hdr), io.SeekStart)
+			rd = br
+			c.Event("reader:bytes_reader_at_offset")
+		}
+	case "limited":
+		if fr.failAt < 0 {
+			rd = io.LimitReader(io.MultiReader(bytes.NewReader(data), bytes.NewReader(bytes.Repeat([]byte{0xEE}, 100))), int64(len(data)))
+			c.Event("reader:limited")
+		}
+	}
 	fdsBefore := countFds()
-	f, err := memfd.DupToMemfd("verif", fr)
+	f, err := memfd.DupToMemfd("verif", rd)
 	if fr.failAt >= 0 {
 		if err == nil {
 			f.Close()
